@@ -140,13 +140,14 @@ Definition invalid_string : str := Eval compute in s_ "invalid string"%string.
 
 (* ---------- lexer helpers ---------- *)
 
-(* lookAt(pos+1), lookAt(pos+2) on the remaining input: 0 beyond the end *)
+(* lookAt(pos+1), lookAt(pos+2) on the remaining input; beyond the end Go returns eof (-1), the
+   model 0: both are only compared with '=', '/' and '.', from which they differ alike *)
 Definition peek (l : list N) : N := match l with [] => 0 | c :: _ => c end.
 Definition peek2 (l : list N) : N := match l with _ :: c :: _ => c | _ => 0 end.
 
 (* readWhile / consumeHorizontalWhitespace: how many of the following runes
-   satisfy pred.  (Go stops at the end of the input because pred(0) is false
-   for each predicate it uses.) *)
+   satisfy pred.  (Go stops at the end of the input because pred(eof) is false
+   for each predicate it uses: eof = -1 is no letter, digit, blank or '.'.) *)
 Fixpoint span_len (pred : N -> bool) (l : list N) : nat :=
   match l with
   | [] => O
@@ -170,22 +171,22 @@ Fixpoint lookup_keyword (kws : list (str * token_type)) (s : str) : option token
 Section Lexer.
   (* unicode.IsLetter, unicode.IsDigit: oracles *)
   Variable uni_letter uni_digit : N -> bool.
-  (* The code uses rune 0 both for "beyond the end of the input" (lookAt) and
-     as an ordinary rune of the input, so a U+0000 in the source ends the
-     token stream (finding lex-nul-truncates-input).  [nul_is_eof = true] is
-     the code as it is; [false] is the corrected lexer in which lookAt returns
-     a sentinel that is not a rune (proposed_fixes/C03-lex-nul-eof.diff). *)
+  (* lookAt returns the sentinel eof = -1, which is not a rune, beyond the end
+     of the input (since commit d745e6e).  Before that fix it returned rune 0,
+     the same value as a U+0000 in the source, so a NUL ended the token
+     stream.  [nul_is_eof = false] is the code as it is; [true] is the lexer
+     before the fix, kept for the regression lemmas C03_*_before_fix. *)
   Variable nul_is_eof : bool.
   Definition is_end (r : N) : bool := nul_is_eof && (r =? 0).
 
-  (* readComment's predicate: r != 0 && r != '\n' *)
+  (* readComment's predicate: r != eof && r != '\n' *)
   Definition comment_char (r : N) : bool := negb (is_end r) && negb (r =? 10).
 
   (* readString's loop: number of runes consumed after the opening quote.
      [esc] is the variable `escaped` computed for the rune under the cursor. *)
   Fixpoint string_span (esc : bool) (l : list N) : nat :=
     match l with
-    | [] => O                                              (* pr == 0 *)
+    | [] => O                                              (* pr == eof *)
     | c :: r =>
       if (c =? 34) && negb esc then 1%nat                  (* closing quote: advance, break *)
       else if is_end c || (c =? 10) then O                 (* error case: break *)
@@ -235,7 +236,7 @@ Section Lexer.
       | Some lit => (T_STRING_LIT, lit, S k)
       | None => (T_ILLEGAL, invalid_string, S k)
       end
-    else if is_end c then (T_EOF, [], 1%nat)                     (* case 0 *)
+    else if is_end c then (T_EOF, [], 1%nat)                     (* before the fix: case 0 *)
     else if is_letter c then
       let k := span_len ident_char rest in
       let lit := c :: firstn k rest in
@@ -256,7 +257,7 @@ Section Lexer.
      earlier. *)
   Fixpoint lex_go (skip : nat) (off line col : N) (l : list N) : list token :=
     match l with
-    | [] => [mkToken T_EOF [] off line col]           (* lookAt beyond the end = 0: case 0 *)
+    | [] => [mkToken T_EOF [] off line col]           (* lookAt beyond the end = eof: case eof *)
     | c :: rest =>
       match skip with
       | S k => lex_go k (off + 1) (adv_line c line) (adv_col c col) rest
@@ -271,9 +272,9 @@ Section Lexer.
   Definition lex_gen (input : list N) : list token := lex_go O 0 1 1 input.
 End Lexer.
 
-(* the lexer as it is, and the corrected one *)
-Definition lex (uni_letter uni_digit : N -> bool) := lex_gen uni_letter uni_digit true.
-Definition lex_fixed (uni_letter uni_digit : N -> bool) := lex_gen uni_letter uni_digit false.
+(* the lexer as it is, and the lexer before commit d745e6e (a NUL rune ended the input) *)
+Definition lex (uni_letter uni_digit : N -> bool) := lex_gen uni_letter uni_digit false.
+Definition lex_before_fix (uni_letter uni_digit : N -> bool) := lex_gen uni_letter uni_digit true.
 
 (* ---------- entry point for the driver ----------
    case:   ((cp isLetter isDigit) ...) (cp ...)       the table lists every code point of the input
@@ -322,5 +323,5 @@ Definition lex_case_gen (b : bool) (x : sx) : sx :=
   | _ => Sym (s_ "decode-error"%string)
   end.
 
-Definition lex_case := lex_case_gen true.
-Definition lex_fixed_case := lex_case_gen false.
+Definition lex_case := lex_case_gen false.
+Definition lex_before_fix_case := lex_case_gen true.
